@@ -336,6 +336,15 @@ class Runner:
                     self.problem("mutated", "md.rmsd(precentered=True) modified its input")
 
 
+def _lh5_write(md, t, path):
+    from mdtraj.formats import LH5TrajectoryFile
+    f = LH5TrajectoryFile(path, "w", force_overwrite=True)
+    try:
+        f.write(t.xyz)          # (Trajectory.save_lh5 hands its own array over in the same way)
+    finally:
+        f.close()
+
+
 def observers(md, t, scratch):
     out = []
     if t.n_frames == 0 or t.n_atoms < 4:
@@ -354,6 +363,9 @@ def observers(md, t, scratch):
         ("save_xtc", lambda: t.save(os.path.join(scratch, "obs.xtc"))),
         ("save_pdb", lambda: t.save(os.path.join(scratch, "obs.pdb"))),
         ("save_dcd", lambda: t.save(os.path.join(scratch, "obs.dcd"))),
+        ("LH5TrajectoryFile.write", lambda: _lh5_write(md, t, os.path.join(scratch, "obs.lh5"))),
+        ("save_gro", lambda: t.save(os.path.join(scratch, "obs.gro"))),
+        ("save_mdcrd", lambda: t.save(os.path.join(scratch, "obs.mdcrd"))),
         ("compute_neighbors", lambda: md.compute_neighbors(t, 0.5, [0])),
         ("compute_contacts", lambda: md.compute_contacts(t, [[0, 1]])),
     ]
@@ -453,6 +465,40 @@ def run(ctx):
                     seen.setdefault("mutated|" + name, ("%s modified its input trajectory (xyz/time/cell hash changed)" % name,
                                                         dict(n_frames=n, cell=cell, ops=toks, observer=name)))
                     ctx.count("observer calls")
+    # ---- atom subsets given in any order, with repeats and negative values: the coordinate columns are xyz[:, idx] and the topology
+    # names the same atoms in the same order
+    import warnings as _w
+    for k in range(ctx.n(12, 80)):
+        tb = base_traj(md, 3, k % 2 == 0, seed=100 + k)
+        na = tb.n_atoms
+        idx = [rng.randrange(-na, na) for _ in range(rng.randrange(1, 7))] if k % 3 else rng.sample(range(na), rng.randrange(1, na))
+        for inplace in (False, True):
+            tc = tb[:]
+            with _w.catch_warnings():
+                _w.simplefilter("ignore")
+                try:
+                    r_ = tc.atom_slice(idx, inplace=inplace)
+                except Exception as e:  # noqa: BLE001
+                    seen.setdefault("atom_slice|unsorted|raises", ("atom_slice(%s, inplace=%s) raised %s: %s" % (idx, inplace, type(e).__name__, e), dict(idx=idx)))
+                    continue
+            res = tc if inplace else r_
+            ctx.case(None, ("atom-slice-order", k, inplace)); ctx.count("atom subsets in arbitrary order")
+            want_names = [tb.topology.atom(i % na).name for i in idx]
+            got_names = [res.topology.atom(j).name for j in range(res.topology.n_atoms)]
+            if res.n_atoms != len(idx) or not np.array_equal(res.xyz, tb.xyz[:, idx]) or got_names != want_names:
+                seen.setdefault("atom_slice|unsorted|pairing", ("atom_slice(%s, inplace=%s): coordinate columns %s, topology atoms %s, numpy indexing gives the atoms %s" % (
+                    idx, inplace, "match xyz[:, idx]" if res.xyz.shape == tb.xyz[:, idx].shape and np.array_equal(res.xyz, tb.xyz[:, idx]) else "differ from xyz[:, idx]", got_names, want_names), dict(idx=idx, inplace=inplace)))
+    # ---- a unit cell assigned as float64 vectors: slices, joins and atom subsets reproduce the stored lengths and angles exactly
+    tv = base_traj(md, 5, False, seed=7)
+    vec = np.array([[[3.0 + 0.1234567891 * f, 0, 0], [0.3, 3.5 + 1e-9 * f, 0], [0.2, 0.4, 4.0 + 0.0123456789 * f]] for f in range(5)], dtype=np.float64)
+    tv.unitcell_vectors = vec
+    ctx.case(None, ("cell-vectors-f64",)); ctx.count("float64 unit cell vectors")
+    for how, r_ in (("t[1:4]", tv[1:4]), ("t.atom_slice([0, 1])", tv.atom_slice([0, 1])), ("t.join(t)[:5]", tv.join(tv)[:5])):
+        w_l = tv.unitcell_lengths[1:4] if how == "t[1:4]" else tv.unitcell_lengths
+        w_a = tv.unitcell_angles[1:4] if how == "t[1:4]" else tv.unitcell_angles
+        if not (np.array_equal(r_.unitcell_lengths, w_l) and np.array_equal(r_.unitcell_angles, w_a)):
+            seen.setdefault("cell|float64-vectors|" + how, ("after t.unitcell_vectors = <float64 array>, %s does not reproduce the stored cell: lengths differ by %.3g" % (
+                how, float(np.abs(np.asarray(r_.unitcell_lengths, dtype=np.float64) - w_l).max())), dict(how=how)))
     # ---- joins of trajectories whose per-frame fields have different dtypes: exactly np.concatenate (promotion, nothing truncated)
     mk_time = {
         "int64": lambda n_, o: np.arange(n_, dtype=np.int64) + o,
